@@ -2130,7 +2130,12 @@ WUR iwrc _lx_sblk_cmp_key(struct iwlctx *lx, struct sblk *sblk, int *resp) {
     return IWKV_ERROR_CORRUPTED;
   }
   if (dbflg & IWDB_COMPOUND_KEYS) {
-    ksize += IW_VNUMSIZE(key->compound);
+    // Key bodies are compared below: count the compound prefix as it is stored in the cached key
+    int step;
+    int64_t c;
+    IW_READVNUMBUF64(sblk->lk, c, step);
+    (void) c;
+    ksize += step;
   }
   if (  (sblk->flags & SBLK_FULL_LKEY)
      || (ksize < lkl)
